@@ -37,7 +37,7 @@ def single_step(rng, cfg=None, two_apps=None, nmut=None, new_models=False,
     prev = 0
     for i, c in enumerate(cuts + [len(muts)]):
         if c > prev:
-            evos.append({'label': 'e%d' % (i + 1), 'mutations': muts[prev:c]})
+            evos.append({'label': spec.evo_label(i), 'mutations': muts[prev:c]})
         prev = c
     project = {
         'apps': {a: {'v0': st0['apps'][a]['models'], 'steps': []}
